@@ -361,6 +361,8 @@ MOS = [
        snapshot_seq, functions=[("hnsw_backend.rs", "create_snapshot")]),
     MO("O2.6/update_logged_is_applied", "update_metadata: the WAL entry and the document store receive clones of the same final metadata; replay replaces (never merges) on UpdateMetadata",
        update_logged_is_applied, functions=[("hnsw_backend.rs", "update_metadata"), ("hnsw_backend.rs", "recover_with_hnsw_params_and_mode")]),
+    MO("O2.9/seq_allocation", "sequence allocation: next_wal_seq.fetch_add advances by exactly the number of WAL entries the operation logs, so no later operation re-uses a number already written (same obligation as C01 O1.9)",
+       lambda F: __import__("props.C01", fromlist=["seq_allocation"]).seq_allocation(F), functions=[("hnsw_backend.rs", f) for f in ("insert", "delete", "update_metadata", "batch_delete")]),
     MO("O2.8/snapshot_contents", "create_snapshot: every live slot contributes (doc_id, clone of its vector) and (doc_id, clone of its metadata), slot = the enumerate index of the same item, no condition on the contents",
        snapshot_contents, functions=[("hnsw_backend.rs", "create_snapshot")]),
     MO("O2.7/replay_applies", "recover: every non-skipped WAL entry takes effect before the next one is read — Insert inserts under entry.doc_id, Delete removes it, UpdateMetadata overwrites a present document's metadata with entry.metadata (no payload-dependent shortcut)",
